@@ -21,7 +21,10 @@
  *           `dec` (the DECODER-FILLED structure) -> K x vorbis_comment_add / vorbis_comment_add_tag onto dec -> dec == base+added
  *           (count, lengths, bytes, terminators, vendor kept), queries on dec, dec -> vorbis_commentheader_out (mode f: and
  *           vorbis_analysis_headerout) -> decode again == base+added, queries.
- *     editgrid <mode> <loc> <Nlo> <Nhi> <Kmax>      every N in Nlo..Nhi x every K in 1..Kmax, contents cycling through S(A6,3)
+ *     editgrid <mode> <loc> <Nlo> <Nhi> <Kmax> [V]  every N in Nlo..Nhi x every K in 0..Kmax (0 = plain transcode), contents cycling through S(A6,3)
+ *           V = source vendor of the decoded stream: 0 written by this library; 1..5 FOREIGN, comment header packed by hand
+ *           (AcmeCodec..., empty, 300 bytes, with NUL and 0xff, high bytes): the re-written header must carry the LIBRARY's vendor
+ *           (editenum and edit1 take the same optional trailing V)
  *     editenum <mode> <loc> <alpha> <bmaxlen> <bn> <amaxlen> <ak> <lo> <hi>
  *           every base list of exactly bn entries over S(alpha,bmaxlen) (first entry index in [lo,hi)) x every added list of
  *           exactly ak entries over the NUL-free strings of S(alpha,amaxlen)
@@ -323,28 +326,62 @@ static void apply_adds(vorbis_comment *vc,const ent *m,int n){
     }else vorbis_comment_add(vc,(const char*)m[i].p);
   }
 }
-/* EDIT: adds onto a decoder-filled structure */
-static void seq_edit(const ent *base,int nb,const ent *add,int na,int mode){
-  ent *m=seq_concat(base,nb,add,na); int n=nb+na,rc; long f0=S.nfail;
+/* source vendors of the stream that the decoder-filled structure comes from: 0 = written by this library, 1.. = FOREIGN
+   (comment header packed by hand below, independently of the library's bit packer) */
+#define NVEND 6
+static unsigned char g_v300[301];
+static const unsigned char *vend_bytes(int V,int *len){
+  switch(V){
+    case 1: *len=40; return (const unsigned char*)"AcmeCodec 2.1 (definitely not libvorbis)";
+    case 2: *len=0;  return (const unsigned char*)"";
+    case 3: { int j; for(j=0;j<300;j++)g_v300[j]=(unsigned char)(0x21+j%94); g_v300[300]=0; *len=300; return g_v300; }
+    case 4: *len=8;  return (const unsigned char*)"Foo\0bar\xff";             /* NUL and 0xff inside */
+    default:*len=3;  return (const unsigned char*)"\xff\xfe\x80";
+  }
+}
+static void put32(unsigned char **p,unsigned v){ (*p)[0]=v&255; (*p)[1]=(v>>8)&255; (*p)[2]=(v>>16)&255; (*p)[3]=(v>>24)&255; *p+=4; }
+static unsigned char *handpack(const unsigned char *vend,int vlen,const ent *m,int n,long *bytes){
+  long tot=7+4+vlen+4+1; int i; unsigned char *b,*p;
+  for(i=0;i<n;i++)tot+=4+m[i].len;
+  b=p=(unsigned char*)malloc(tot);
+  *p++=3; memcpy(p,"vorbis",6); p+=6;
+  put32(&p,vlen); memcpy(p,vend,vlen); p+=vlen;
+  put32(&p,n);
+  for(i=0;i<n;i++){ put32(&p,m[i].len); memcpy(p,m[i].p,m[i].len); p+=m[i].len; }
+  *p++=1;
+  *bytes=tot; return b;
+}
+/* EDIT: adds (na>=0; 0 = plain transcode) onto a decoder-filled structure whose stream had source vendor V, then re-written by this library */
+static void seq_edit(const ent *base,int nb,const ent *add,int na,int mode,int V){
+  ent *m=seq_concat(base,nb,add,na); int n=nb+na,rc,vlen=0; long f0=S.nfail; const unsigned char *vb=NULL; unsigned char *hp=NULL;
   vorbis_comment src,dec; vorbis_info vi; ogg_packet opc,idp;
-  snprintf(g_vn,sizeof(g_vn),"edit:N=%d",nb); g_variant=g_vn; g_path="-"; g_m=m; g_n=n;
+  snprintf(g_vn,sizeof(g_vn),"edit:N=%d:V=%d",nb,V); g_variant=g_vn; g_path="-"; g_m=m; g_n=n;
   if(g_tracefd>=0)trace_list(m,n);
   S.seqs++;
-  build_exact(&src,base,nb);
   memset(&opc,0,sizeof(opc));
-  rc=vorbis_commentheader_out(&src,&opc);
-  free_struct(&src);
-  if(rc||!opc.packet){ fail("bad:commentheader_out:rc%d:base",rc); return; }
+  if(V==0){
+    build_exact(&src,base,nb);
+    rc=vorbis_commentheader_out(&src,&opc);
+    free_struct(&src);
+    if(rc||!opc.packet){ fail("bad:commentheader_out:rc%d:base",rc); return; }
+  }else{
+    vb=vend_bytes(V,&vlen);
+    hp=handpack(vb,vlen,base,nb,&opc.bytes); opc.packet=hp; opc.packetno=1;
+  }
   memset(&idp,0,sizeof(idp)); idp.packet=g_id; idp.bytes=g_idlen; idp.b_o_s=1;
   vorbis_info_init(&vi); vorbis_comment_init(&dec);
   rc=vorbis_synthesis_headerin(&vi,&dec,&idp);
   if(!rc)rc=vorbis_synthesis_headerin(&vi,&dec,&opc);
   free(opc.packet);
   if(rc){ fail("bad:headerin_comment:rc%d:base",rc); vorbis_comment_clear(&dec); vorbis_info_clear(&vi); return; }
-  if(!compare_vc(&dec,base,nb,"decoded_base",1)){
+  if(!compare_vc(&dec,base,nb,"decoded_base",V==0)){
+    /* the decoder reports the vendor that was in the packet (as a C string) */
+    if(V>0&&(!dec.vendor||strcmp(dec.vendor,(const char*)vb)))fail("bad:source_vendor_not_reported:decoded_base");
     apply_adds(&dec,add,na);
-    if(!compare_vc(&dec,m,n,"edited",1)){
+    if(!compare_vc(&dec,m,n,"edited",V==0)){
+      if(V>0&&(!dec.vendor||strcmp(dec.vendor,(const char*)vb)))fail("bad:source_vendor_changed_by_add:edited");
       check_queries(&dec,m,n,"edited");
+      /* whatever the source said: a header written by THIS library carries the library's vendor string (roundtrip checks it) */
       roundtrip(&dec,m,n,1,1);
       if(mode=='f')roundtrip(&dec,m,n,0,0);
     }
@@ -410,8 +447,8 @@ static void prod_rec(ent *m,int pos,int n,const str_t *T,int nt,int lo,int hi,vo
   if(pos==n){ f(m,n,arg); return; }
   for(k=a;k<b;k++){ m[pos].p=T[k].b; m[pos].len=T[k].len; prod_rec(m,pos+1,n,T,nt,lo,hi,f,arg); }
 }
-typedef struct { const ent *outer; int nouter; const str_t *T; int nt; int n; int mode; int kind; } seqctx;
-static void seq_inner(const ent *m,int n,void *arg){ seqctx *c=(seqctx*)arg; if(c->kind==0)seq_edit(c->outer,c->nouter,m,n,c->mode); else seq_reuse(c->outer,c->nouter,m,n,c->mode); }
+typedef struct { const ent *outer; int nouter; const str_t *T; int nt; int n; int mode; int kind; int V; } seqctx;
+static void seq_inner(const ent *m,int n,void *arg){ seqctx *c=(seqctx*)arg; if(c->kind==0)seq_edit(c->outer,c->nouter,m,n,c->mode,c->V); else seq_reuse(c->outer,c->nouter,m,n,c->mode); }
 static void seq_outer(const ent *m,int n,void *arg){ seqctx *c=(seqctx*)arg; ent in[8]; c->outer=m; c->nouter=n; prod_rec(in,0,c->n,c->T,c->nt,0,c->nt,seq_inner,c); }
 static void enum_rec(ent *m,int pos,int n,int allx,int mode){
   int k;
@@ -476,28 +513,29 @@ int main(int argc,char **argv){
       else for(k=lo;k<hi&&k<g_ns;k++){ m[0].p=g_S[k].b; m[0].len=g_S[k].len; enum_rec(m,1,n,g_S[k].excl,mode); }
     }else if(!strcmp(kind,"editgrid")||!strcmp(kind,"reusegrid")){
       static const unsigned char A6[6]={0x61,0x41,0x3d,0x00,0xe9,0x69};
-      int lo_=atoi(strtok_r(NULL," \n",&sv)),hi_=atoi(strtok_r(NULL," \n",&sv)),kmax=atoi(strtok_r(NULL," \n",&sv)),ed=!strcmp(kind,"editgrid");
+      int lo_=atoi(strtok_r(NULL," \n",&sv)),hi_=atoi(strtok_r(NULL," \n",&sv)),kmax=atoi(strtok_r(NULL," \n",&sv)),ed=!strcmp(kind,"editgrid"); char *vt=strtok_r(NULL," \n",&sv); int V=vt?atoi(vt):0;
       int nall,nnf,N,K,i; str_t *ALL=gen_table(A6,6,3,NULL,-1,0,0,&nall),*NF=gen_table(A6,6,3,NULL,-1,0,1,&nnf);
       ent *a=(ent*)malloc(sizeof(ent)*(hi_+2)),*b=(ent*)malloc(sizeof(ent)*(kmax+2));
-      for(N=lo_;N<=hi_;N++)for(K=ed?1:0;K<=kmax;K++){
+      for(N=lo_;N<=hi_;N++)for(K=0;K<=kmax;K++){
         for(i=0;i<N;i++){ const str_t *t=ed?&ALL[(i*37+N*11+K)%nall]:&NF[(i*37+N*11+K)%nnf]; a[i].p=t->b; a[i].len=t->len; }
         for(i=0;i<K;i++){ const str_t *t=&NF[(i*13+N+K*5)%nnf]; b[i].p=t->b; b[i].len=t->len; }
-        if(ed)seq_edit(a,N,b,K,mode); else seq_reuse(a,N,b,K,mode);
+        if(ed)seq_edit(a,N,b,K,mode,V); else seq_reuse(a,N,b,K,mode);
       }
       free(a); free(b); free(ALL); free(NF);
     }else if(!strcmp(kind,"editenum")||!strcmp(kind,"reuseenum")){
       unsigned char al[64]; int na,l1,n1,l2,n2,lo,hi,nt1,nt2,ed=!strcmp(kind,"editenum"); char *a1; str_t *T1,*T2; seqctx c; ent out[8];
       a1=strtok_r(NULL," \n",&sv); l1=atoi(strtok_r(NULL," \n",&sv)); n1=atoi(strtok_r(NULL," \n",&sv)); l2=atoi(strtok_r(NULL," \n",&sv)); n2=atoi(strtok_r(NULL," \n",&sv));
       lo=atoi(strtok_r(NULL," \n",&sv)); hi=atoi(strtok_r(NULL," \n",&sv));
+      { char *vt=strtok_r(NULL," \n",&sv); memset(&c,0,sizeof(c)); c.V=vt?atoi(vt):0; }
       na=parse_hex(a1,al,64);
       if(na<=0||l1>8||l2>8||n1>7||n2>7||n1<0||n2<0){ printf("%ld BADCASE\n",idx); fflush(stdout); continue; }
       T1=gen_table(al,na,l1,NULL,-1,0,ed?0:1,&nt1); T2=gen_table(al,na,l2,NULL,-1,0,1,&nt2);
-      memset(&c,0,sizeof(c)); c.T=T2; c.nt=nt2; c.n=n2; c.mode=mode; c.kind=ed?0:1;
+      c.T=T2; c.nt=nt2; c.n=n2; c.mode=mode; c.kind=ed?0:1;
       if(n1==0){ if(lo==0)seq_outer(out,0,&c); }
       else prod_rec(out,0,n1,T1,nt1,lo,hi,seq_outer,&c);
       free(T1); free(T2);
     }else if(!strcmp(kind,"edit1")||!strcmp(kind,"reuse1")){
-      int N=atoi(strtok_r(NULL," \n",&sv)); char *ls=strtok_r(NULL," \n",&sv); ent *m; int n=0,cap=1; char *p,*q,*sv2;
+      int N=atoi(strtok_r(NULL," \n",&sv)); char *ls=strtok_r(NULL," \n",&sv); char *vt=strtok_r(NULL," \n",&sv); int V=vt?atoi(vt):0; ent *m; int n=0,cap=1; char *p,*q,*sv2;
       if(!ls){ printf("%ld BADCASE\n",idx); fflush(stdout); continue; }
       for(p=ls;*p;p++)if(*p==',')cap++;
       m=(ent*)malloc(sizeof(ent)*(cap+1)); ar_reset((long)strlen(ls)+cap*2+64);
@@ -506,7 +544,7 @@ int main(int argc,char **argv){
       }
       if(N>n)N=n;
       { ent *first=(ent*)malloc(sizeof(ent)*(N+1)),*rest=(ent*)malloc(sizeof(ent)*(n-N+1)); memcpy(first,m,sizeof(ent)*N); memcpy(rest,m+N,sizeof(ent)*(n-N));
-        if(!strcmp(kind,"edit1"))seq_edit(first,N,rest,n-N,mode); else seq_reuse(first,N,rest,n-N,mode);
+        if(!strcmp(kind,"edit1"))seq_edit(first,N,rest,n-N,mode,V); else seq_reuse(first,N,rest,n-N,mode);
         free(first); free(rest); }
       free(m);
     }else if(!strcmp(kind,"one")){
